@@ -285,6 +285,12 @@ func (viso *VirtualISO) scanDirectory() error {
 			viso.filesSizeSectors += fi.size.sectors()
 		}
 
+		// directories are numbered in path table from 1 and parent of a directory is named by 16-bit number:
+		// with more of them path tables would have to be cut
+		if len(viso.rootDir) >= pathTableItemsLimit-1 {
+			return fmt.Errorf("dir %s: too many directories for an image", path)
+		}
+
 		viso.rootDir = append(viso.rootDir, dirItem)
 		return nil
 	}
